@@ -233,6 +233,8 @@ def gen_xdatagram(rng, name, qtype, qclass, buf):
     qn = len(qname_wire(name))
     for _ in range(rng.choice([0, 0, 1, 1, 2, 3])):
         m = rng.randrange(14)
+        if len(d) < 12 + qn + 4 and m not in (7, 11):
+            continue                                                       # already cut short by an earlier mutation
         if m == 0:
             d[rng.randrange(2)] ^= 1 << rng.randrange(8)                 # id
         elif m == 1:
@@ -308,6 +310,8 @@ def gen_scenario(rng, focus, client=None, variant=0):
     buf = rng.choice([512, 512, 1232, 4096])
     name = rand_name(rng)
     qtype = rng.choice([1, 1, 28, 16])
+    if focus in ("xmodel", "strategy", "tcpframe", "udpfilter") and rng.random() < 0.3:
+        qtype = rng.choice([252, 251, 255, 41, 0, 65535, 250, 249, 6, 2, rng.randrange(65536)])   # AXFR IXFR ANY OPT ... 
     mk = lambda **kw: Query(kw.get("kind", "raw"), kw.get("name", name), kw.get("qtype", qtype), kw.get("qclass", 1),
                             kw.get("udp", [[(0, "resp")]]), kw.get("tcp", (0, "full")), kw.get("drop"))
     if focus == "wire":
@@ -320,10 +324,22 @@ def gen_scenario(rng, focus, client=None, variant=0):
                 nm.decode()
             except UnicodeDecodeError:
                 nm = name
+        if variant < 4 or (r >= 0.25 and r < 0.45):
+            # names at the size limit: wire length 250..256 (text 248..254 + optional root dot);
+            # the first four scenarios of every client are the two largest legal names, over UDP and TCP, EDNS on
+            last = [60, 61, 60, 61][variant] if variant < 4 else rng.choice([56, 58, 59, 60, 61, 61, 62])
+            if variant < 4:
+                strategy = ["udp", "udp", "tcp", "tcp"][variant]
+            lab = lambda n: bytes(rng.choice(b"abcdefghijklmnopqrstuvwxyz0123456789") for _ in range(n))
+            nm = b".".join([lab(63), lab(63), lab(63), lab(last)]) + (b"." if rng.random() < 0.5 else b"")
+            if variant < 4 or rng.random() < 0.7:
+                edns = (0, rng.choice([512, 1232, 4096]))
+            if variant < 4:
+                buf = rng.choice([512, 1232, 4096])
         qs = [mk(name=nm, qtype=rng.choice([1, 28, 255, 0, 65535, rng.randrange(65536)]), qclass=rng.choice([1, 3, 255, 0, 65535]))]
-        if rng.random() < 0.2:
+        if variant >= 4 and rng.random() < 0.2:
             buf = rng.choice([100, 511, 512, 513])
-        elif rng.random() < 0.2:
+        elif variant >= 4 and rng.random() < 0.2:
             buf = rng.choice([65535, 65536, 65537, 70000])
     elif focus == "udpfilter":
         items = []
@@ -403,6 +419,10 @@ def gen_scenario(rng, focus, client=None, variant=0):
             ("tcp-late-prefix-stall-5", "tcp", 300, [], (500, "stall:7")),
             ("tcp-drip-60", "tcp", 300, [], (0, "drip:60")),
             ("tcp-drip-15", "tcp", 300, [], (0, "drip:15")),
+            ("retry-then-tc-then-tcp-stall-0", "udp", 300, [[], [], [(20, "resptc")]], (0, "stall:0")),
+            ("retry-then-tc-then-tcp-stall-1", "udp", 300, [[], [(20, "resptc")]], (0, "stall:1")),
+            ("retry-then-tc-then-tcp-stall-body", "udp", 300, [[], [], [(20, "resptc")]], (0, "stall:9")),
+            ("retry-then-tc-then-slow-accept", "udp", 300, [[], [], [(20, "resptc")]], (250, "full")),
         ]
         nm_, strategy, qt, udp_, tcp_ = pats[variant % len(pats)]
         qs = [mk(udp=udp_, tcp=tcp_)]
